@@ -117,9 +117,37 @@ def _wrapper_literals(cls_ast, resolve):
                 c = const(n.left, fn)
                 if c is not None:
                     notin.append(c)
+    if not (len(finds) == len(offs) == 1) and len(starts) == len(ends) == 1:
+        # the nested-template test is not written as `text[k:].find(needle)` (e.g. `needle in text[len(needle):]`):
+        # read it from BEHAVIOUR — a cell that starts with the marker, ends with the end marker and holds the marker
+        # once more is reported, the same cell without the second marker is not; the offset is then the marker's
+        # length (no second occurrence can begin before it: the cell starts with the marker)
+        probe = _nested_probe(starts[0], ends[0])
+        if probe:
+            finds, offs = [starts[0]], [len(starts[0])]
     assert len(starts) == len(ends) == len(finds) == len(notin) == len(offs) == 1, (starts, ends, finds, notin, offs)
     assert isinstance(offs[0], int)
     return starts[0], ends[0], finds[0], notin[0], offs[0]
+
+
+def _nested_probe(start: str, end: str) -> bool:
+    m = t1lib.load("rpft.parsers.common.cellparser")
+    lg = t1lib.load("rpft.logger.logger")
+    logger = lg.get_logger()
+
+    def criticals(text):
+        cap = _Capture()
+        logger.addHandler(cap)
+        try:
+            try:
+                m.CellParser().parse_as_string(text, {"t1_defined": 1})
+            except BaseException:  # noqa: BLE001
+                pass
+        finally:
+            logger.removeHandler(cap)
+        return sum(1 for x in cap.records if x.levelno >= logging.CRITICAL)
+
+    return criticals(f"{start} 1 {end} {start} 2 {end}") > criticals(f"{start} 1 {end}")
 
 
 def tables() -> str:
